@@ -3,7 +3,7 @@
 //!
 //! The trait enables easy testing of the language server protocol integration.
 
-use std::{collections::HashMap, fs, path::Path};
+use std::{collections::BTreeMap, fs, path::Path};
 
 use ironplc_analyzer::stages::analyze;
 use ironplc_dsl::{
@@ -43,8 +43,11 @@ pub trait Project {
 
 /// A project is a collection of files used together as a single unit.
 pub struct FileBackedProject {
-    /// The user-supplied source files for the project
-    sources: HashMap<FileId, Source>,
+    /// The user-supplied source files for the project.
+    ///
+    /// The map is ordered so that the files are always analyzed in the same
+    /// order (by file identifier) regardless of insertion history or run.
+    sources: BTreeMap<FileId, Source>,
 }
 
 impl Default for FileBackedProject {
@@ -56,7 +59,7 @@ impl Default for FileBackedProject {
 impl FileBackedProject {
     pub fn new() -> Self {
         FileBackedProject {
-            sources: HashMap::new(),
+            sources: BTreeMap::new(),
         }
     }
 
